@@ -12,7 +12,8 @@ as far to the right as possible —, `until`; `implies` and `until` do not assoc
 namespace Scenic.C11.Syntax
 open Scenic.LTL.Syntax Scenic.Gen.LTLGram
 
-/-- the extracted rules are the chain the facts below speak about (the look-ahead set may only grow) -/
+/-- the extracted rules are the chain the facts below speak about (the look-ahead set, which contains
+    `implies` since the repair of `(always A) implies B`, may only grow) -/
 theorem gen_gram_core :
     gram.prefixOps = canonical.prefixOps ∧ gram.impliesRhsPrefix = true ∧ gram.orOperandPrefix = true ∧
       gram.andOperandPrefix = true ∧ gram.notOperandPrefix = true ∧
@@ -50,6 +51,8 @@ def precedenceFacts : List (List String × Option (List String)) :=
     (["A", "until", "(", "B", "until", "C", ")"], some (["Until", "Atom", "0", "Until", "Atom", "1", "Atom", "2"])),
     (["(", "always", "A", ")", "and", "B"], some (["And", "2", "Always", "Atom", "0", "Atom", "1"])),
     (["(", "A", "or", "B", ")", "implies", "C"], some (["Implies", "Or", "2", "Atom", "0", "Atom", "1", "Atom", "2"])),
+    (["(", "always", "A", ")", "implies", "B"], some (["Implies", "Always", "Atom", "0", "Atom", "1"])),
+    (["(", "A", "until", "B", ")", "implies", "next", "C"], some (["Implies", "Until", "Atom", "0", "Atom", "1", "Next", "Atom", "2"])),
     (["A", "until", "B", "until", "C"], none),
     (["A", "implies", "B", "implies", "C"], none),
     (["always"], some (["Atom", "?"])),
@@ -57,30 +60,22 @@ def precedenceFacts : List (List String × Option (List String)) :=
 
 theorem precedence_chain : ∀ e ∈ precedenceFacts, parse gram e.1 = e.2 := by decide
 
-/-- FULL: every worked example of the reference parses to the reading the text states.
-    Proved for all examples but `(always A) implies B`, which needs `implies` in the look-ahead set that
-    closes a parenthesised temporal group — as the grammar stands that example is a syntax error
-    (`doc_example_group_before_implies_witness`). -/
-theorem doc_examples_partial : ∀ e ∈ docExamples,
-    parse gram e.1 = some e.2 ∨
-      (gram.groupFollow.contains "implies" = false ∧ e.1 = ["(", "always", "A", ")", "implies", "B"]) := by decide
+example : precedenceFacts.length = 30 := rfl
 
-theorem doc_examples_full (h : gram.groupFollow.contains "implies" = true) :
-    ∀ e ∈ docExamples, parse gram e.1 = some e.2 := by
-  intro e he
-  rcases doc_examples_partial e he with h1 | ⟨h2, _⟩
-  · exact h1
-  · rw [h] at h2; cases h2
+/-- every worked example of the reference parses to the reading the text states (among them
+    `(always A) implies B`, which needs `implies` in the look-ahead set that closes a parenthesised temporal
+    group) -/
+theorem doc_examples : ∀ e ∈ docExamples, parse gram e.1 = some e.2 := by decide
 
-theorem doc_example_group_before_implies_witness (h : gram.groupFollow.contains "implies" = false) :
-    parse gram (["(", "always", "A", ")", "implies", "B"]) = none := by
-  revert h; decide
+example : (["(", "always", "A", ")", "implies", "B"], ["Implies", "Always", "Atom", "0", "Atom", "1"]) ∈ docExamples := by
+  decide
 
-/-- with `implies` added to the look-ahead set (the proposed repair) the example parses as stated and no fact
-    of the chain changes -/
-theorem repaired_grammar_ok :
-    let g := { canonical with groupFollow := canonical.groupFollow ++ ["implies"] }
-    parse g (["(", "always", "A", ")", "implies", "B"]) = some (["Implies", "Always", "Atom", "0", "Atom", "1"]) ∧
-      ∀ e ∈ precedenceFacts, parse g e.1 = e.2 := by decide
+/-- the look-ahead set matters: without `implies` in it the documented example is a syntax error, with the
+    canonical configuration every fact of the chain and every documented example holds -/
+theorem group_lookahead_needed :
+    parse { canonical with groupFollow := ["until", "or", "and", ")", ";", "<nl>"] }
+        (["(", "always", "A", ")", "implies", "B"]) = none ∧
+      (∀ e ∈ precedenceFacts, parse canonical e.1 = e.2) ∧ (∀ e ∈ docExamples, parse canonical e.1 = some e.2) := by
+  decide
 
 end Scenic.C11.Syntax
